@@ -234,10 +234,13 @@ Fixpoint set_ids (l : list (Z * Z)) (ids : list (Z * (Z * Z))) (i : Z) : list (Z
 Definition sparse (n : Z) (d : Z * Z) (ids : list (Z * (Z * Z))) : list Q :=
   map fq (set_ids (repeat d (Z.to_nat n)) ids 0%Z).
 
-(* the tree as observed on the implementation: positions as injective codes *)
+(* the tree as observed on the implementation: positions as injective codes.
+   OUn: a child that has never been touched (no statistics, no priors, no
+   children), given by a checksum of its position code and its move id *)
 Inductive onode :=
-  ONode (code : list Z) (mov : option mv) (v0 value : Q) (sims : Z) (probs : list Q)
-        (kids : option (list onode)).
+| ONode (code : list Z) (mov : option mv) (v0 value : Q) (sims : Z) (probs : list Q)
+        (kids : option (list onode))
+| OUn (chk : Z) (id : Z).
 
 (* board as one number: base-7 digits, per square the pieces (1..6, top first) then 0 *)
 Definition piece_code (pc : piece) : Z :=
@@ -259,24 +262,42 @@ Fixpoint all2 {A B} (f : A -> B -> bool) (la : list A) (lb : list B) : bool :=
   | _, _ => false
   end.
 
+(* checksum of a position code (the full code is compared at every visited node) *)
+Definition code_chk (c : list Z) : Z :=
+  (fold_left (fun acc d => (acc * 1000003 + d) mod 2147483647) c 7)%Z.
+
+Definition pristine (n : node) : bool :=
+  match n with
+  | Node _ _ v0 value sims _ probs kids =>
+    qeqb v0 0 && qeqb value 0 && Nat.eqb sims 0 &&
+    match probs with [] => true | _ => false end &&
+    match kids with None => true | Some _ => false end
+  end.
+
 (* model node against observed node: sims, value, v_zero, move, position exact;
-   child priors within tol relative *)
-Fixpoint node_agrees (tol : Q) (n : node) (o : onode) {struct n} : bool :=
-  match n, o with
-  | Node p m v0 value sims _ probs kids, ONode code om ov0 ovalue osims oprobs okids =>
-    list_eqb Z.eqb (pos_code p) code && opt_eqb mv_eqb m om &&
-    qeqb v0 ov0 && qeqb value ovalue && (Z.of_nat sims =? osims)%Z &&
-    all2 (fun a b => qclose tol b a) probs oprobs &&
-    match kids, okids with
-    | None, None => true
-    | Some ks, Some oks =>
-      (fix go (l : list node) (ol : list onode) : bool :=
-         match l, ol with
-         | [], [] => true
-         | a :: t, b :: ot => node_agrees tol a b && go t ot
-         | _, _ => false
-         end) ks oks
-    | _, _ => false
+   child priors within tol relative.  tbl = the id table of the board size *)
+Fixpoint node_agrees (tol : Q) (tbl : list mv) (n : node) (o : onode) {struct n} : bool :=
+  match o with
+  | OUn chk id =>
+    pristine n && (code_chk (pos_code (n_pos n)) =? chk)%Z &&
+    opt_eqb mv_eqb (n_move n) (if (id <? 0)%Z then None else nth_error tbl (Z.to_nat id))
+  | ONode code om ov0 ovalue osims oprobs okids =>
+    match n with
+    | Node p m v0 value sims _ probs kids =>
+      list_eqb Z.eqb (pos_code p) code && opt_eqb mv_eqb m om &&
+      qeqb v0 ov0 && qeqb value ovalue && (Z.of_nat sims =? osims)%Z &&
+      all2 (fun a b => qclose tol b a) probs oprobs &&
+      match kids, okids with
+      | None, None => true
+      | Some ks, Some oks =>
+        (fix go (l : list node) (ol : list onode) : bool :=
+           match l, ol with
+           | [], [] => true
+           | a :: t, b :: ot => node_agrees tol tbl a b && go t ot
+           | _, _ => false
+           end) ks oks
+      | _, _ => false
+      end
     end
   end.
 
@@ -350,7 +371,7 @@ Fixpoint run_phases (cutoff mix : Q) (phs : list phase) (n : node) (evs : list e
 Definition check_search (cutoff mix tol : Q) (p0 : position) (phs : list phase) (evs : list eval)
            (obs : onode) : bool :=
   match run_phases cutoff mix phs (root p0) evs with
-  | Some (n, []) => node_agrees tol n obs
+  | Some (n, []) => node_agrees tol (table (size p0)) n obs
   | _ => false
   end.
 
@@ -414,6 +435,3 @@ Definition show_calls (cutoff mix C : Q) (p0 : position) (phs : list phase) (evs
           end)
   | None => None
   end.
-
-(* an observed child that has never been touched *)
-Definition OU (code : list Z) (m : mv) : onode := ONode code (Some m) 0 0 0%Z [] None.
